@@ -104,8 +104,30 @@ def _stmt(ex, st, a, weight):
                 out.append(Alt(b.env, a.total + n * b.total, b.guards))
         return out
     if isinstance(st, ast.If):
-        body = count_calls(ex, st.body, env, weight, a.guards)
-        orelse = count_calls(ex, st.orelse, env, weight, a.guards)
+        # values known to be > 0 on either arm, evaluated NOW (the arms may re-bind the names the test reads)
+        pos_true, pos_false = [], []
+        tt = st.test
+        if isinstance(tt, ast.Compare) and len(tt.ops) == 1:
+            try:
+                lv, rv = ex.eval(tt.left, dict(env)), ex.eval(tt.comparators[0], dict(env))
+                if isinstance(lv, R) and isinstance(rv, R):
+                    op_ = type(tt.ops[0])
+                    nonneg = lambda v: v.is_const() and v.const_value() >= 0
+                    if op_ is ast.Lt:
+                        pos_true += [rv] if nonneg(lv) else []
+                    if op_ is ast.Gt:
+                        pos_true += [lv] if nonneg(rv) else []
+                    if op_ is ast.GtE:
+                        pos_false += [rv] if nonneg(lv) else []
+                    if op_ is ast.LtE:
+                        pos_false += [lv] if nonneg(rv) else []
+            except Unsupported:
+                pass
+        env_b, env_o = dict(env), dict(env)
+        env_b["__pos__"] = list(env.get("__pos__", [])) + pos_true
+        env_o["__pos__"] = list(env.get("__pos__", [])) + pos_false
+        body = count_calls(ex, st.body, env_b, weight, a.guards)
+        orelse = count_calls(ex, st.orelse, env_o, weight, a.guards)
         # transparent guard:  if E != 0: <contribution proportional to E>
         t = st.test
         if isinstance(t, ast.Compare) and len(t.ops) == 1 and isinstance(t.ops[0], ast.NotEq) \
@@ -171,14 +193,20 @@ def _assigned_names(node):
 
 def apply_div_relations(total: R, guards, ex=None, env=None):
     """a % b -> a - b*(a//b);  a // a -> 1 when a guard `K < a` (K >= 0 literal) holds."""
-    positive = []
-    for pol, test in guards:
-        if isinstance(test, ast.Compare) and len(test.ops) == 1:
+    positive = [p_ for p_ in (env or {}).get("__pos__", []) if isinstance(p_, R)]      # recorded where the branch was taken
+    for pol, test in []:
+        if isinstance(test, ast.Compare) and len(test.ops) == 1 and ex is not None:
             l, r, op = test.left, test.comparators[0], test.ops[0]
-            if pol == "true" and isinstance(op, ast.Lt):
-                positive.append(ast.unparse(r))
-            if pol == "true" and isinstance(op, ast.Gt):
-                positive.append(ast.unparse(l))
+            big, small = (r, l) if (pol == "true" and isinstance(op, ast.Lt)) or (pol == "false" and isinstance(op, ast.GtE)) else \
+                (l, r) if (pol == "true" and isinstance(op, ast.Gt)) or (pol == "false" and isinstance(op, ast.LtE)) else (None, None)
+            if big is None:
+                continue
+            try:
+                bv, sv = ex.eval(big, dict(env or {})), ex.eval(small, dict(env or {}))
+            except Unsupported:
+                continue
+            if isinstance(bv, R) and isinstance(sv, R) and sv.is_const() and sv.const_value() >= 0:
+                positive.append(bv)
     changed = True
     n = 0
     while changed and n < 10:
@@ -191,7 +219,7 @@ def apply_div_relations(total: R, guards, ex=None, env=None):
                 mapping[atom] = x - y * anf.fn_("floordiv", x, y)
             elif atom[0] == "fn" and atom[1] == "floordiv":
                 x, y = anf.REG.get(atom[2])
-                if x.eq(y) and positive:
+                if x.eq(y) and any(x.eq(p_) for p_ in positive):
                     mapping[atom] = R.const(1)
         if mapping:
             new = anf.subst(total, mapping)
